@@ -7,6 +7,7 @@ package node
 
 import (
 	"github.com/vechain/thor/v2/block"
+	"github.com/vechain/thor/v2/consensus"
 	"github.com/vechain/thor/v2/packer"
 )
 
@@ -21,9 +22,27 @@ func (n *Node) VerifInit() error {
 }
 
 // VerifProcessBlock imports a received block exactly as handleBlockStream does.
-func (n *Node) VerifProcessBlock(blk *block.Block) (bool, error) {
+// class is one of ok | known | parent-missing | unprocessable | bft-rejected | future | error.
+func (n *Node) VerifProcessBlock(blk *block.Block) (isTrunk bool, class string, err error) {
 	var stats blockStats
-	return n.processBlock(blk, &stats)
+	isTrunk, err = n.processBlock(blk, &stats)
+	switch {
+	case err == nil && stats.ignored > 0:
+		class = "known"
+	case err == nil:
+		class = "ok"
+	case err == errParentMissing:
+		class = "parent-missing"
+	case err == errBlockTemporaryUnprocessable:
+		class = "unprocessable"
+	case err == errBFTRejected:
+		class = "bft-rejected"
+	case consensus.IsFutureBlock(err):
+		class = "future"
+	default:
+		class = "error"
+	}
+	return
 }
 
 // VerifDoPack packs on the given flow exactly as packerLoop does.
@@ -34,21 +53,4 @@ func (n *Node) VerifDoPack(flow *packer.Flow) error {
 // VerifClose stops the background log worker.
 func (n *Node) VerifClose() {
 	n.logWorker.Close()
-}
-
-// VerifErrClass classifies an import error the way processBlock's switch does.
-func VerifErrClass(err error) string {
-	switch err {
-	case nil:
-		return "ok"
-	case errKnownBlock:
-		return "known"
-	case errParentMissing:
-		return "parent-missing"
-	case errBlockTemporaryUnprocessable:
-		return "unprocessable"
-	case errBFTRejected:
-		return "bft-rejected"
-	}
-	return "error"
 }
